@@ -139,6 +139,8 @@ def structural_check(frame, ver, ty):
     if not frame[body_start:].startswith(b'35=' + ty.encode() + SOH):
         return f'BodyLength field is not followed by 35={ty}'
     tail = frame[body_start + n:]
+    if tail.startswith(b'10=') and tail.endswith(SOH) and tail.count(SOH) == 1 and (len(tail) != 7 or not tail[3:6].isdigit()):
+        return f'CheckSum field {tail!r} is not three decimal digits'
     if len(tail) != 7 or not tail.startswith(b'10=') or not tail.endswith(SOH) or not tail[3:6].isdigit():
         return (f'BodyLength {n} is not the number of bytes between the BodyLength field and the CheckSum field '
                 f'(what follows those {n} bytes is {tail[:12]!r})')
@@ -178,7 +180,7 @@ def segmentations(rng, data, n):
     out = []
     for _ in range(n):
         c = rng.random()
-        if c < 0.15:
+        if c < 0.15 and len(data) <= 1200:
             cuts = list(range(1, len(data)))                     # byte by byte
         elif c < 0.3:
             cuts = []
@@ -284,7 +286,7 @@ def expected_collection(ver, d, m_stamped, frame):
 def run(ctx):
     rng = ctx.rng
     quick = ctx.tier == 'quick'
-    n_dict = 40 if quick else 600
+    n_dict = 160 if quick else 3500
     ctx.cov['rule'] = ('sessions (Fix44Session / Fix50Session) x generated dictionaries (standard header, random bodies with nested groups) x '
                        'logon MsgSeqNum chosen next to 9/99/999/… x comp-id lengths x user messages (padding chosen so that BodyLength '
                        'lands on 99/100/999/1000/9999/10000, large group payloads) x automatic heartbeats; every written frame is one case; '
@@ -298,14 +300,19 @@ def run(ctx):
     pending = []        # (model request line, expected answer, what, replay)
     plans = [plan_from_replay(c) for c in corpus if c.get('kind') == 'session']
     plans += [gen_plan(rng, quick) for _ in range(n_dict)]
-    for plan in plans:
+    def flush():
+        if ctx.driver.available and pending:
+            answers = ctx.driver.ask([p[0] for p in pending])
+            for (line, expected, what, rep), a in zip(pending, answers):
+                if a != expected:
+                    ctx.disagree(f'{what}: model {a[:150]} vs implementation {expected[:150]}', rep)
+        del pending[:]
+    for i, plan in enumerate(plans):
         run_plan(ctx, rng, plan, pending)
-    if ctx.driver.available and pending:
-        answers = ctx.driver.ask([p[0] for p in pending])
-        for (line, expected, what, rep), a in zip(pending, answers):
-            if a != expected:
-                ctx.disagree(f'{what}: model {a[:150]} vs implementation {expected[:150]}', rep)
-    elif not ctx.driver.available:
+        if i % 100 == 99:
+            flush()
+    flush()
+    if not ctx.driver.available:
         ctx.notes.append('model driver unavailable: oracle only')
 
 
@@ -357,7 +364,62 @@ def plan_from_replay(rep):
             'hb_wait': rep.get('hb_wait', 0.0), 'nseg': 3}
 
 
+def fresh_plan(plan):
+    """the same plan with new class names (Message.Def is process-global)"""
+    ren = {x['name']: fc.fresh_name() for x in plan['mdefs']}
+    mdefs = [dict(x, name=ren[x['name']]) for x in plan['mdefs']]
+    by = {x['name']: x for x in mdefs}
+    return dict(plan, mdefs=mdefs, sends=[[by[ren[d['name']]], m, t] for d, m, t in plan['sends']],
+                bad=[(by[ren[d['name']]], m, k) for d, m, k in plan['bad']])
+
+
+class ProbeCtx:
+    """stands in for ctx while a reduced session is tried during minimisation"""
+    def __init__(self):
+        self.notes = []
+
+    def case(self, *a, **k):
+        pass
+
+    def count(self, *a, **k):
+        pass
+
+    def disagree(self, *a, **k):
+        pass
+
+
 def run_plan(ctx, rng, plan, pending):
+    """run one session; a failure is first reduced to the shortest session that still shows the same finding"""
+    import random
+    found = []
+    run_plan_inner(ctx, rng, plan, pending, found)
+    if not found:
+        return
+    what, rep = found[0]
+    finding, k = rep.get('finding'), rep.get('frame_index')
+    n_user = 1 + len(plan['sends'])
+    cands = []
+    if k is not None and 1 <= k < n_user and len(plan['sends']) > 1:
+        cands.append(dict(plan, sends=[plan['sends'][k - 1]], bad=[], hb_wait=0.0))
+    if k == 0 or k is None:
+        cands.append(dict(plan, sends=[], bad=[], hb_wait=0.0))
+    if k is not None and k >= n_user:
+        cands.append(dict(plan, sends=[], bad=[], hb_wait=HB * 2.5))
+    for cand in cands:
+        f2 = []
+        try:
+            run_plan_inner(ProbeCtx(), random.Random(1), fresh_plan(cand), [], f2)
+        except Exception:  # noqa
+            continue
+        same = [x for x in f2 if x[1].get('finding') == finding]
+        if same:
+            found = same + [x for x in found if x[1].get('finding') != finding]
+            break
+    for what, rep in found[:6]:
+        report(ctx, what, rep)
+
+
+def run_plan_inner(ctx, rng, plan, pending, found):
     mdefs, v = plan['mdefs'], plan['v']
     ver = VERSIONS[v]
     logon_d, hb_d = mdefs[0], mdefs[1]
@@ -378,7 +440,7 @@ def run_plan(ctx, rng, plan, pending):
     try:
         built = fc.build_dictionary(mdefs)
     except Exception as e:  # noqa
-        ctx.violation(f'defining the dictionary classes raised {err_name(e)}', dict(rep_base, finding='dictionary'))
+        found.append((f'defining the dictionary classes raised {err_name(e)}', dict(rep_base, finding='dictionary')))
         return
     # the peer's logon reply: any frame of the logon class (built with the reference encoder)
     reply_m = stamped(logon_d, {'hdr': [], 'body': [], 'trl': []}, ('', sess[2], sess[1]), 1, '20260101-00:00:00')
@@ -394,17 +456,18 @@ def run_plan(ctx, rng, plan, pending):
         return out
     res = run_session(v, built, mdefs, logon_d, logon_a, reply, sends, [(d, m) for d, m, _ in plan['bad']], plan['hb_wait'], seg_lists)
     if res['error']:
-        report(ctx, f'driving the session failed: {res["error"]}', dict(rep_base, finding='session-error'))
+        found.append((f'driving the session failed: {res["error"]}', dict(rep_base, finding='session-error')))
         return
     frames = res['frames']
-    reg_sx = sx([fc.mdef_sx(x) for x in mdefs])
+    md_sx = {x['name']: sx(fc.mdef_sx(x)) for x in mdefs}
+    reg_sx = '(' + ' '.join(md_sx[x['name']] for x in mdefs) + ')'
     sess_sx = '(sess ' + sx(cps(sess[0])) + ' ' + sx(cps(sess[1])) + ' ' + sx(cps(sess[2])) + ')'
     # which message does frame k carry?
     carried = [(logon_d, logon_a)] + list(sends)
     n_user = len(carried)
     for oc in res['send_outcomes']:
         if oc[0] != 'ok' or oc[1] != 1:
-            report(ctx, f'sending a valid message: {oc}', dict(rep_base, finding='send-raises'))
+            found.append((f'sending a valid message: {oc}', dict(rep_base, finding='send-raises')))
             return
     expected_frames = n_user + res.get('n_heartbeats', 0)
     good_frames = frames[:expected_frames]
@@ -423,12 +486,11 @@ def run_plan(ctx, rng, plan, pending):
         # ---- oracle
         why = structural_check(frame, ver, d['type'])
         if why:
-            report(ctx, f'frame {k} ({d["type"]}): {why}', dict(rep, finding='frame-shape'))
+            found.append((f'frame {k} ({d["type"]}): {why}', dict(rep, finding='frame-shape')))
         ref = ref_frame(ver, d, st)
         if frame != ref:
-            report(ctx, f'frame {k} differs from the independent recomputation: got {frame[:90]!r} expected {ref[:90]!r}',
-                   dict(rep, finding='frame-bytes'))
-        blen = len(frame) - 7 - len(b'8=' + ver.encode() + SOH + b'9=') - len(str(0))  # refined below
+            found.append((f'frame {k} differs from the independent recomputation: got {frame[:90]!r} expected {ref[:90]!r}',
+                   dict(rep, finding='frame-bytes')))
         j = frame.find(SOH, len(b'8=' + ver.encode() + SOH))
         digits = frame[len(b'8=' + ver.encode() + SOH) + 2:j]
         if digits.isdigit():
@@ -440,25 +502,25 @@ def run_plan(ctx, rng, plan, pending):
         if ck.isdigit():
             ctx.count('checksum:' + ('<10' if int(ck) < 10 else '<100' if int(ck) < 100 else '>=100'))
         # ---- model
-        line = f'fix.frame {sx(cps(ver))} {sx(fc.mdef_sx(d))} {sess_sx} {seq} {sx(cps(time))} {sx(fc.msg_sx(m))}'
+        line = f'fix.frame {sx(cps(ver))} {md_sx[d["name"]]} {sess_sx} {seq} {sx(cps(time))} {sx(fc.msg_sx(m))}'
         pending.append((line, f'ok {sx(frame)} {sx(fc.msg_sx(st))}', f'fix.frame (frame {k}, type {d["type"]})', rep))
         # the message object as mutated by send_msg
         if k < n_user:
             try:
                 coll = fc.msg_of_collection(d, res['sent_objs'][k].as_collection())
                 if coll != st:
-                    report(ctx, f'frame {k}: header stamping left {coll["hdr"]} expected {st["hdr"]}', dict(rep, finding='stamping'))
+                    found.append((f'frame {k}: header stamping left {coll["hdr"]} expected {st["hdr"]}', dict(rep, finding='stamping')))
             except Exception as e:  # noqa
-                report(ctx, f'frame {k}: as_collection of the sent message raised {err_name(e)}', dict(rep, finding='stamping'))
+                found.append((f'frame {k}: as_collection of the sent message raised {err_name(e)}', dict(rep, finding='stamping')))
     # ---- sends that must fail (agreement only)
     for (d, m, kind), oc in zip(plan['bad'], res['bad_outcomes']):
         ctx.count(f'bad-send:{kind}:{oc[0]}')
-        line = f'fix.frame {sx(cps(ver))} {sx(fc.mdef_sx(d))} {sess_sx} {seq0 + expected_frames} {sx(cps("20260101-00:00:00"))} {sx(fc.msg_sx(m))}'
+        line = f'fix.frame {sx(cps(ver))} {md_sx[d["name"]]} {sess_sx} {seq0 + expected_frames} {sx(cps("20260101-00:00:00"))} {sx(fc.msg_sx(m))}'
         exp = oc[0] if oc[0].startswith('err') else None
         if exp is not None:
             pending.append((line, exp, f'fix.frame on a {kind} message', dict(rep_base, bad=sx(fc.msg_sx(m)))))
         if oc[1] != 0 and oc[0].startswith('err'):
-            report(ctx, f'a send that raised ({oc[0]}) still wrote {oc[1]} frame(s)', dict(rep_base, finding='write-on-error'))
+            found.append((f'a send that raised ({oc[0]}) still wrote {oc[1]} frame(s)', dict(rep_base, finding='write-on-error')))
     # ---- read back
     by_name = {x['name']: x for x in mdefs}
     all_frames = frames
@@ -468,12 +530,12 @@ def run_plan(ctx, rng, plan, pending):
         rep = dict(rep_base, segments=[s.hex() for s in segs])
         ctx.count('readback:' + ('single-frame' if single else 'whole-session') + ':segments' + str(min(len(segs), 9)) + ('+' if len(segs) >= 9 else ''))
         if err:
-            report(ctx, f'reader raised {err} on frames the session wrote', dict(rep, finding='readback-raises'))
+            found.append((f'reader raised {err} on frames the session wrote', dict(rep, finding='readback-raises')))
             continue
         got = [o[0] for o in out]
         if got != want or left:
-            report(ctx, f'reader framed {len(got)} message(s) / {len(left)} bytes left, expected exactly the {len(want)} frame(s) written',
-                   dict(rep, finding='readback-framing'))
+            found.append((f'reader framed {len(got)} message(s) / {len(left)} bytes left, expected exactly the {len(want)} frame(s) written',
+                   dict(rep, finding='readback-framing')))
             continue
         pending.append((f'fix.feed {sx([bytes(s) for s in segs])}', 'ok (' + ' '.join(sx(f) for f in want) + ') x',
                         'fix.feed (cut points under segmentation)', rep))
@@ -487,13 +549,13 @@ def run_plan(ctx, rng, plan, pending):
                 name = type(msg).Name
                 coll = fc.msg_of_collection(by_name[name], msg.as_collection())
             except Exception as e:  # noqa
-                report(ctx, f'read-back frame {k}: cannot take the collection ({err_name(e)})', dict(rep, finding='readback-decode'))
+                found.append((f'read-back frame {k}: cannot take the collection ({err_name(e)})', dict(rep, finding='readback-decode')))
                 continue
             exp = expected_collection(ver, d, st, fr)
             if name != d['name'] or coll != exp:
-                report(ctx, f'read-back frame {k}: decoded {name} {coll} != sent {d["name"]} {exp}', dict(rep, finding='readback-decode', frame=fr.hex()))
+                found.append((f'read-back frame {k}: decoded {name} {coll} != sent {d["name"]} {exp}', dict(rep, finding='readback-decode', frame=fr.hex())))
             if skip != (d['type'] == '0') or stop != (d['type'] == '5'):
-                report(ctx, f'read-back frame {k}: heartbeat/logout flags wrong', dict(rep, finding='readback-decode'))
+                found.append((f'read-back frame {k}: heartbeat/logout flags wrong', dict(rep, finding='readback-decode')))
             pending.append((f'fix.deser {reg_sx} {sx(fr)}', f'ok {sx(cps(name))} {sx(fc.msg_sx(coll))} x',
                             f'fix.deser (frame {k})', dict(rep, frame=fr.hex())))
 
